@@ -5,6 +5,7 @@ import (
 	"fmt"
 	"os"
 	"strings"
+	"time"
 
 	"github.com/cbehopkins/gkvlite"
 )
@@ -118,8 +119,15 @@ func RunOps(cfg RunCfg, ops []Op) (*World, []string, *Mismatch) {
 				hm.Step, hm.Op = i, op.String()
 				return w, obs, hm
 			}
-			if hm := checkRefs(w); hm != nil {
+			hm := checkRefs(w)
+			// an iterator's producer goroutine releases its pin asynchronously after Close(): allow it a bounded delay
+			for try := 0; hm != nil && try < 400; try++ {
+				time.Sleep(5 * time.Millisecond)
+				hm = checkRefs(w)
+			}
+			if hm != nil {
 				hm.Step, hm.Op = i, op.String()
+				hm.Note = "still so 2 s after the call returned"
 				return w, obs, hm
 			}
 		}
